@@ -55,8 +55,27 @@ def applyEntry (v : View) (e : Entry) : View :=
 /-- the visible state after applying a list of entries in order -/
 def viewOf (l : List Entry) : View := l.foldl applyEntry []
 
-/-- wal.GetEntriesFrom (all entries with sequence >= c, log order) cut to the poll limit -/
-def selectFrom (L : List Entry) (c n : Nat) : List Entry := (L.filter (fun e => decide (c ≤ e.seq))).take n
+/-- keys and values are abstract numbers `len * 65536 + id`: the high part is the byte length that the response byte cap
+    counts (every number below 65536 is a zero-length item, so small examples never meet the cap) -/
+def blen (x : Nat) : Nat := x / 65536
+
+/-- `len(entry.Key) + len(entry.Value)` -/
+def Entry.size (e : Entry) : Nat := blen e.key + (match e.val with | some v => blen v | none => 0)
+
+/-- the response byte cap of `getWALEntriesFromSequence`: the loop adds the size of entry `i` to a running total and cuts
+    the list at the first `i > 0` whose total exceeds the cap — the first entry is always kept. Returns the number of
+    entries kept (same function as Kevo.Applier.capCount, on abstract entries). -/
+def capCount (cap : Nat) : Nat → Nat → List Entry → Nat
+  | i, _, [] => i
+  | i, total, e :: es =>
+    let total := total + e.size
+    if 0 < i ∧ cap < total then i else capCount cap (i + 1) total es
+
+/-- wal.GetEntriesFrom (all entries with sequence >= c, log order) cut to the poll limit, then to the response byte cap
+    (`pollBytes`, regenerated from the source) -/
+def selectFrom (L : List Entry) (c n : Nat) : List Entry :=
+  let s := (L.filter (fun e => decide (c ≤ e.seq))).take n
+  s.take (capCount pollBytes 0 0 s)
 
 /-- the log carries the numbers s, s+1, … : no two entries share a sequence number -/
 def seqFrom : Nat → List Entry → Prop
